@@ -40,6 +40,13 @@
      StaleText         a map above the small-map size keeps the printed form it was last written as; giving a key
                        it already has a new value does not discard that text (inserting / deleting a key does),
                        and the copy every element assignment works on takes the text along: see `texts`, AsPrinted.
+     SaveNoTrunc       save() writes the new text over the file that is there without cutting it: what the older,
+                       longer file held beyond the new text stays (see WriteOver; auto-save renames a new file).
+   and one more that the code has:
+     LiteralBindsOwnName  a named function written as a value (`g=func f(a){a+1}`, `o=[func f(x){x+1},2]`: a named function
+                       held under another name or inside a container) is, when the line is read back, a function
+                       literal with a name: evaluating it binds `f` as well, over whatever the file said about `f`
+                       on an earlier line - or although the saving session had no `f` at all (see ParseLine.side).
 
    Session histories (scope "hist"): before the final save a session runs `todo`, a list of steps - its value is
    printed / converted / saved (Show), an element is assigned or deleted, a binding is copied, the session ends
@@ -57,8 +64,8 @@ CONSTANTS Dev,        \* subset of DevNames
 
 DevNames == {"FloatNoPoint", "MinIntLiteral", "NameForms", "QuoteEscapes", "ClosureNoEnv", "FuncOwnName",
              "LossyFuncPrint", "ExtUsage", "QuoteMultiLine", "ScannerLimit", "NamedFuncNoLimit",
-             "Unsorted", "Truncate", "RawStrings", "ScannerByLimit", "StaleText"}
-CodeDev  == DevNames \ {"Unsorted", "Truncate", "RawStrings", "ScannerByLimit", "StaleText"}
+             "Unsorted", "Truncate", "RawStrings", "ScannerByLimit", "StaleText", "SaveNoTrunc", "LiteralBindsOwnName"}
+CodeDev  == DevNames \ {"Unsorted", "Truncate", "RawStrings", "ScannerByLimit", "StaleText", "SaveNoTrunc"}
 ASSUME Dev \subseteq DevNames
 HasDev(d) == d \in Dev
 
@@ -139,7 +146,8 @@ PrintCap(c, i) ==
   ELSE Cat3(IF i > 1 THEN "," ELSE "", Cat3(c[i][1], "=", Printed(c[i][2])), PrintCap(c, i + 1))
 
 \* with every deviation of the code on, the printed form of data is GrolValues!Inspect
-PrintIsInspect(v) == (CodeDev \subseteq Dev /\ ~HasDev("RawStrings") /\ IsData(v)) => Printed(v) = Inspect(v)
+\* (of the rules above only FloatNoPoint and RawStrings concern the printed form of data)
+PrintIsInspect(v) == (HasDev("FloatNoPoint") /\ ~HasDev("RawStrings") /\ IsData(v)) => Printed(v) = Inspect(v)
 
 PreConst == IF Preseeded THEN {"PI", "E"} ELSE {}      \* constants that are pre-seeded identifiers: never saved
 
@@ -370,18 +378,38 @@ ParseCaps(s, i, env, acc, st) ==
                  [] At(s, v.nx) = 125 -> R(st2, acc2, v.nx + 1)
                  [] OTHER             -> R("parseerr", <<>>, v.nx)
 
-(* one line as one statement: [st, name, v].  `func name(..){..}` defines name; `name=value` binds it. *)
+(* the named functions a value read from a literal holds, in the order the literal is evaluated: under
+   LiteralBindsOwnName each of them is a function literal with a name, and evaluating it defines that name.
+   (Not modelled: the definitions made by the part of a line that was evaluated before an evaluation error.) *)
+RECURSIVE NamedFns(_)
+RECURSIVE NamedFnsSeq(_, _)
+RECURSIVE NamedFnsPairs(_, _)
+NamedFns(v) ==
+  CASE v.t = "func" -> (IF v.name # "" THEN <<v>> ELSE <<>>)
+    [] v.t = "arr"  -> NamedFnsSeq(v.e, 1)
+    [] v.t = "map"  -> NamedFnsPairs(v.p, 1)
+    [] OTHER        -> <<>>
+NamedFnsSeq(e, i)   == IF i > Len(e) THEN <<>> ELSE NamedFns(e[i]) \o NamedFnsSeq(e, i + 1)
+NamedFnsPairs(p, i) == IF i > Len(p) THEN <<>> ELSE NamedFns(p[i][1]) \o NamedFns(p[i][2]) \o NamedFnsPairs(p, i + 1)
+RECURSIVE BindFns(_, _, _)
+BindFns(env, fs, i) == IF i > Len(fs) THEN env ELSE BindFns(Bind(env, fs[i].name, fs[i], 1), fs, i + 1)
+
+(* one line as one statement: [st, name, v, side].  `func name(..){..}` defines name; `name=value` binds it - after
+   the value has been evaluated, which under LiteralBindsOwnName defines `side` on the way.                   *)
+PL(st, name, v, side) == [st |-> st, name |-> name, v |-> v, side |-> side]
 ParseLine(line, env) ==
   LET n == StrLen(line) IN
   IF StartsWith(line, 1, "func ") /\ IsLetterB(At(line, 6))
   THEN LET r == ParseFn(line, 1) IN
-       IF r.st # "ok" \/ r.nx # n + 1 THEN [st |-> "parseerr", name |-> "", v |-> Nil]
-       ELSE [st |-> "ok", name |-> r.v.name, v |-> r.v]
+       IF r.st # "ok" \/ r.nx # n + 1 THEN PL("parseerr", "", Nil, <<>>)
+       ELSE PL("ok", r.v.name, r.v, <<>>)
   ELSE LET k == SkipIdent(line, 1) IN
-       IF k = 1 \/ ~IsLetterB(At(line, 1)) \/ At(line, k) # 61 THEN [st |-> "parseerr", name |-> "", v |-> Nil]
+       IF k = 1 \/ ~IsLetterB(At(line, 1)) \/ At(line, k) # 61 THEN PL("parseerr", "", Nil, <<>>)
        ELSE LET r == ParseVal(line, k + 1, env) IN
-            IF r.st = "parseerr" \/ r.nx # n + 1 THEN [st |-> "parseerr", name |-> "", v |-> Nil]
-            ELSE [st |-> r.st, name |-> Sub(line, 1, k - 1), v |-> r.v]
+            IF r.st = "parseerr" \/ r.nx # n + 1 THEN PL("parseerr", "", Nil, <<>>)
+            ELSE PL(r.st, Sub(line, 1, k - 1), r.v, IF r.st = "ok" /\ HasDev("LiteralBindsOwnName") THEN NamedFns(r.v) ELSE <<>>)
+(* the session after a line that was read *)
+BindLine(env, r) == Bind(BindFns(env, r.side, 1), r.name, r.v, 1)
 
 \* repl.AutoLoad: a fresh session, each line its own input, failing lines skipped
 (* the line reader gives up (silently: that line and the rest are not loaded) at a line it has no room for:
@@ -394,7 +422,7 @@ AutoLoadFrom(f, i, env, lim) ==
   IF i > Len(f) THEN env
   ELSE IF (HasDev("ScannerLimit") \/ (HasDev("ScannerByLimit") /\ lim > 0)) /\ StrLen(f[i]) >= LineRoom(lim) THEN env
   ELSE LET r == ParseLine(f[i], env) IN
-       AutoLoadFrom(f, i + 1, IF r.st = "ok" THEN Bind(env, r.name, r.v, 1) ELSE env, lim)
+       AutoLoadFrom(f, i + 1, IF r.st = "ok" THEN BindLine(env, r) ELSE env, lim)
 AutoLoadOf(f, lim) == AutoLoadFrom(f, 1, <<>>, lim)    \* the loading session is configured with the same limit
 
 \* load(): the whole file is one program: any parse error and nothing is evaluated; the first
@@ -403,7 +431,7 @@ RECURSIVE LoadWholeFrom(_, _, _)
 LoadWholeFrom(f, i, env) ==
   IF i > Len(f) THEN env
   ELSE LET r == ParseLine(f[i], env) IN
-       IF r.st = "ok" THEN LoadWholeFrom(f, i + 1, Bind(env, r.name, r.v, 1)) ELSE env
+       IF r.st = "ok" THEN LoadWholeFrom(f, i + 1, BindLine(env, r)) ELSE env
 LoadWholeOf(f) ==
   IF \E i \in 1..Len(f) : ParseLine(f[i], <<>>).st = "parseerr" THEN <<>> ELSE LoadWholeFrom(f, 1, <<>>)
 
@@ -416,6 +444,7 @@ LoadWholeOf(f) ==
                                        read of another binding: from[fpath[1]][fpath[2]]..; fn: the assignment is made
                                        from inside a function (the global is reached through the enclosing scope)
      [op |-> "del", name, key]         del(name[key])
+     [op |-> "unbind", name]           del(name)
      [op |-> "session"]                the session ends (auto-save); a fresh one auto-loads the file
    A step that the language rejects (no such binding, index out of range) changes nothing.
    Not modelled: which bindings share one container object after n = m (printing n does not mark m here).
@@ -478,37 +507,53 @@ SetElem(c, k, nv) ==            \* <<done, c with element k = nv>>: arrays only 
     [] c.t = "map" -> <<TRUE, Map(MapSet(c.p, k, nv))>>
     [] OTHER       -> <<FALSE, c>>
 
-(* one step: the bindings, the texts and `dirty` (something was set since the session auto-loaded / auto-saved last:
-   an auto-save that finds nothing set writes nothing, so it prints nothing) after it *)
-GT(g, T, d) == [g |-> g, T |-> T, d |-> d]
-StepApply(st, g, T, d, lim) ==
+(* what is in the file after `new` has been written to it by save(): the new text - under SaveNoTrunc followed by
+   what the file held beyond it (bytes, not lines: the tail may start in the middle of an old line).  Auto-save writes
+   a new file and renames it, whatever was there.                                                                  *)
+RECURSIVE JoinNL(_, _)
+JoinNL(f, i) == IF i > Len(f) THEN "" ELSE Cat3(f[i], NL, JoinNL(f, i + 1))
+WriteOver(old, new) ==
+  IF ~HasDev("SaveNoTrunc") THEN new
+  ELSE LET o == JoinNL(old, 1)
+           n == JoinNL(new, 1)
+       IN IF StrLen(n) >= StrLen(o) THEN new ELSE SplitNL(StrCat(n, Sub(o, StrLen(n) + 1, StrLen(o))), 1)
+
+(* one step: the bindings, the texts, `dirty` (something was set since the session auto-loaded / auto-saved last:
+   an auto-save that finds nothing set writes nothing, so it prints nothing) and the file in the directory after it *)
+GT(g, T, d, f) == [g |-> g, T |-> T, d |-> d, f |-> f]
+StepApply(st, g, T, d, lim, f) ==
   CASE st.op = "show" ->
-         (IF st.how = "save" THEN GT(g, ShowAll(g, 1, T), d)
-          ELSE IF st.how = "autosave" THEN (IF d THEN GT(g, ShowAll(g, 1, T), FALSE) ELSE GT(g, T, d))
+         (IF st.how = "save" THEN GT(g, ShowAll(g, 1, T), d, WriteOver(f, SaveFile(Seen(g, T), lim)))
+          ELSE IF st.how = "autosave" THEN (IF d THEN GT(g, ShowAll(g, 1, T), FALSE, SaveFile(Seen(g, T), lim)) ELSE GT(g, T, d, f))
           ELSE LET k == EnvFind(g, st.name, 1) IN
-               IF k > 0 /\ st.how \in PrintWays THEN GT(g, T \o NewTexts(<<Str(st.name)>>, g[k][2], T), d) ELSE GT(g, T, d))
+               IF k > 0 /\ st.how \in PrintWays THEN GT(g, T \o NewTexts(<<Str(st.name)>>, g[k][2], T), d, f) ELSE GT(g, T, d, f))
     [] st.op = "assign" ->
          (LET fk  == IF st.from = "" THEN 0 ELSE EnvFind(g, st.from, 1)
               src == IF st.from = "" THEN <<TRUE, st.v>> ELSE IF fk = 0 THEN <<FALSE, Nil>> ELSE ValAt(g[fk][2], st.fpath, 1)
               P   == <<Str(st.name)>> \o st.path
               G   == IF st.from = "" THEN <<>> ELSE Graft(T, <<Str(st.from)>> \o st.fpath, P)
               nk  == EnvFind(g, st.name, 1)
-          IN IF ~src[1] THEN GT(g, T, d)
-             ELSE IF st.path = <<>> THEN GT(Bind(g, st.name, src[2], 1), DropUnder(T, P) \o G, TRUE)
-             ELSE IF nk = 0 THEN GT(g, T, d)
+          IN IF ~src[1] THEN GT(g, T, d, f)
+             ELSE IF st.path = <<>> THEN GT(Bind(g, st.name, src[2], 1), DropUnder(T, P) \o G, TRUE, f)
+             ELSE IF nk = 0 THEN GT(g, T, d, f)
              ELSE LET c == g[nk][2]
                       r == SetElem(c, st.path[1], src[2])
                       keep == HasDev("StaleText") /\ HasElem(c, st.path[1])      \* the rule: an existing key keeps the text
-                  IN IF ~r[1] THEN GT(g, T, d)
+                  IN IF ~r[1] THEN GT(g, T, d, f)
                      ELSE GT(Bind(g, st.name, r[2], 1),
-                             (IF keep THEN DropUnder(T, P) ELSE DropAt(DropUnder(T, P), <<Str(st.name)>>)) \o G, TRUE))
+                             (IF keep THEN DropUnder(T, P) ELSE DropAt(DropUnder(T, P), <<Str(st.name)>>)) \o G, TRUE, f))
     [] st.op = "del" ->
          (LET nk == EnvFind(g, st.name, 1) IN
-          IF nk = 0 \/ g[nk][2].t # "map" THEN GT(g, T, d)
+          IF nk = 0 \/ g[nk][2].t # "map" THEN GT(g, T, d, f)
           ELSE LET r == MapDel(g[nk][2].p, st.key) IN
-               IF ~r[1] THEN GT(g, T, d)
-               ELSE GT(Bind(g, st.name, Map(r[2]), 1), DropAt(DropUnder(T, <<Str(st.name), st.key>>), <<Str(st.name)>>), TRUE))
-    [] st.op = "session" -> GT(AutoLoadOf(SaveFile(Seen(g, T), lim), lim), <<>>, FALSE)
+               IF ~r[1] THEN GT(g, T, d, f)
+               ELSE GT(Bind(g, st.name, Map(r[2]), 1), DropAt(DropUnder(T, <<Str(st.name), st.key>>), <<Str(st.name)>>), TRUE, f))
+    [] st.op = "unbind" ->            \* del(name): the binding is gone
+         (LET nk == EnvFind(g, st.name, 1) IN
+          IF nk = 0 THEN GT(g, T, d, f)
+          ELSE GT(SubSeq(g, 1, nk - 1) \o SubSeq(g, nk + 1, Len(g)), DropUnder(T, <<Str(st.name)>>), TRUE, f))
+    [] st.op = "session" ->           \* auto-save (when something was set), then a fresh session auto-loads what is there
+         (LET fs == IF d THEN SaveFile(Seen(g, T), lim) ELSE f IN GT(AutoLoadOf(fs, lim), <<>>, FALSE, fs))
 
 \* the step as the input the real session gets
 RECURSIVE PathSrc(_, _)
@@ -532,6 +577,7 @@ StepSrc(st) ==
                                          "=", IF st.from = "" THEN Printed(st.v) ELSE StrCat(st.from, PathSrc(st.fpath, 1)))
                            IN IF st.fn THEN Cat3("func(){", a, "}()") ELSE a
     [] st.op = "del"    -> Cat3("del(", StrCat(st.name, PathSrc(<<st.key>>, 1)), ")")
+    [] st.op = "unbind" -> Cat3("del(", st.name, ")")
     [] OTHER            -> ""
 StepJ(st) ==
   [op   |-> IF st.op = "session" THEN "session" ELSE IF st.op = "show" /\ st.how = "autosave" THEN "autosave" ELSE "in",
@@ -546,6 +592,7 @@ SetRef(name, k, from)    == [op |-> "assign", name |-> name, path |-> <<k>>, dot
 BindLit(name, v)         == [op |-> "assign", name |-> name, path |-> <<>>, dot |-> FALSE, fn |-> FALSE, v |-> v, from |-> "", fpath |-> <<>>]
 BindRef(name, from, fp)  == [op |-> "assign", name |-> name, path |-> <<>>, dot |-> FALSE, fn |-> FALSE, v |-> Nil, from |-> from, fpath |-> fp]
 DelKey(name, k)          == [op |-> "del", name |-> name, key |-> k]
+Unbind(name)             == [op |-> "unbind", name |-> name]
 NextSession              == [op |-> "session"]
 
 \* ------------------------------------------------------------------------------ the value universe
@@ -639,9 +686,27 @@ ArrU == <<
   Arr(<<Flt("4008000000000000")>>), Arr(<<Flt(NegZero), IntV(MinInt)>>), Arr(<<S(<<7>>)>>),
   Arr(<<Flt(NaNBits), Flt(PInf), Flt(NInf)>>),
   Arr(<<MkMap(<< <<Str("k"), Arr(<<IntN(1), MkMap(<< <<Str("z"), Nil>> >>)>>)>> >>)>>),
-  Arr(<<Str(""), Arr(<<>>), Map(<<>>), Bool(FALSE)>>) >>
+  Arr(<<Str(""), Arr(<<>>), Map(<<>>), Bool(FALSE)>>),
+  Arr(<<MkMap(<< <<IntV("-1"), IntN(1)>> >>), MkMap(<< <<Arr(<<IntN(1)>>), IntN(2)>>, <<MkMap(<< <<IntN(1), IntN(2)>> >>), IntN(3)>> >>)>>),  \* maps with keys that are not one token
+  Arr([i \in 1..9 |-> MkMap(<< <<IntN(0 - i), Arr(<<IntN(i)>>)>> >>)]) >>
 
 KV(n) == [i \in 1..n |-> <<IntN(i), IntN(i * i)>>]
+(* Keys whose printed form is not one token: a sign in front of a number or of Inf (a prefix operator applied to a
+   literal / an identifier), an array, a map - alone, next to plain keys, several in one map, below and above the
+   small-map size, at depth (inside a key, inside a value, inside an array), and as keys of keys.  A line read back is
+   a literal whose key expressions are evaluated: whatever the reader does to a tree on the way to evaluation
+   (macro expansion rebuilds it) has to keep key and value together for every kind of key expression.          *)
+NegOne == IntV("-1")
+NonLeafKeys == << NegOne, Flt("bff8000000000000"), Flt(NInf), Flt(PInf), IntV(MinInt), Arr(<<IntN(1), IntN(2)>>), Arr(<<>>), Arr(<<NegOne>>),
+                  MkMap(<< <<Str("a"), IntN(1)>> >>), Map(<<>>), MkMap(<< <<NegOne, Arr(<<IntN(1)>>)>> >>) >>
+NonLeafKeyMaps ==
+  [i \in 1..Len(NonLeafKeys) |-> MkMap(<< <<NonLeafKeys[i], Str("v")>> >>)]                                     \* alone
+  \o [i \in 1..Len(NonLeafKeys) |-> MkMap(<< <<IntN(3), Str("three")>>, <<NonLeafKeys[i], IntN(i)>>, <<Str("k"), IntN(0)>> >>)]   \* next to plain keys
+  \o << MkMap([i \in 1..4 |-> <<NonLeafKeys[i], IntN(i)>>]),                                                    \* several: 4 (small), all (large)
+        MkMap([i \in 1..Len(NonLeafKeys) |-> <<NonLeafKeys[i], IntN(i)>>]),
+        MkMap(<< <<Str("o"), MkMap(<< <<NegOne, MkMap(<< <<Arr(<<IntN(1)>>), MkMap(<< <<Flt(NInf), Nil>> >>)>> >>)>> >>)>> >>),   \* at depth, in values
+        MkMap(<< <<Arr(<<MkMap(<< <<NegOne, IntN(1)>> >>), Arr(<<MkMap(<< <<Arr(<<>>), NegOne>> >>)>>)>>), Str("deep key")>> >>),  \* at depth, in a key
+        MkMap(<< <<NegOne, NegOne>>, <<IntN(1), NegOne>>, <<Str("s"), Arr(<<NegOne, MkMap(<< <<NegOne, NegOne>> >>)>>)>> >>) >>
 MapU == <<
   Map(<<>>), MkMap(<< <<IntN(1), IntN(1)>> >>),
   MkMap(<< <<IntN(1), Str("i")>>, <<Flt("3ff8000000000000"), Str("f")>>, <<Bool(TRUE), Str("b")>>, <<Nil, Str("n")>>,
@@ -654,6 +719,7 @@ MapU == <<
            <<Str("s"), S(<<34, 10>>)>>, <<Str("a"), Arr(<<>>)>>, <<Str("m"), Map(<<>>)>> >>),
   MkMap(<< <<S(<<7>>), S(<<11>>)>> >>),
   MkMap(<< <<Bool(FALSE), IntN(0)>>, <<Bool(TRUE), IntN(1)>> >>) >>
+  \o NonLeafKeyMaps
 
 NumId(k, i) == StrCat(k, IntToI64(i))
 SeqCases(k, vs) == [i \in 1..Len(vs) |-> One(NumId(k, i), vs[i])]
@@ -825,6 +891,78 @@ HistAllCases == Flat([i \in 1..Len(HistVals) |-> HistOf(HistVals[i], i, TRUE)], 
 HistMcVals   == SelectSeq(HistVals, LAMBDA c : c.id \in {"arr9", "map2", "map5", "big-in-small", "big-in-arr"})
 HistMcCases  == Flat([i \in 1..Len(HistMcVals) |-> HistOf(HistMcVals[i], i, FALSE)], 1)
 
+(* The file that is already there (scope "shrink").  A save does not start from nothing: the directory holds what an
+   earlier save() / auto-save / session wrote.  Between the two saves what the session holds gets shorter - a binding
+   is deleted (the one that sorts last: its old line would survive whole; the first; the middle one; all), a value is
+   replaced by a shorter one, an element is deleted - or longer, or stays as long (controls).  Shapes:
+     S1 write (save() / auto-save), change       S2 write, change, save(), change again
+     S3 next session (auto-saved, auto-loaded), change    S4 save(), change, next session (the auto-save replaces the file)
+   each followed by the final save.                                                                              *)
+ShrinkVals == << [id |-> "arr9", v |-> Arr(Ints(9))], [id |-> "map5", v |-> Big5], [id |-> "str", v |-> Str("a fairly long string, long enough")] >>
+ShrinkMods(c) == <<
+  [id |-> "del-last",   st |-> <<Unbind("z")>>],
+  [id |-> "del-first",  st |-> <<Unbind("a0")>>],
+  [id |-> "del-mid",    st |-> <<Unbind("m")>>],
+  [id |-> "del-all",    st |-> <<Unbind("a0"), Unbind("m"), Unbind("z")>>],
+  [id |-> "short-last", st |-> <<BindLit("z", Str(""))>>],
+  [id |-> "short-mid",  st |-> <<BindLit("m", IntN(0))>>],
+  [id |-> "elem",       st |-> IF c.v.t = "map" THEN <<DelKey("m", Str("c"))>> ELSE IF c.v.t = "arr" THEN <<BindLit("m", Arr(Ints(3)))>> ELSE <<BindLit("m", Str("a"))>>],
+  [id |-> "one-byte",   st |-> <<BindLit("z", Str("las"))>>],
+  [id |-> "same",       st |-> <<BindLit("z", Str("tsal"))>>],
+  [id |-> "grow",       st |-> <<BindLit("z", Str("the last one, longer than before"))>>] >>
+ShId(c, shape, m) == Cat3(Cat3("shrink:", c.id, ":"), shape, StrCat(":", m.id))
+ShrinkOf(c, ci) ==
+  LET ms == ShrinkMods(c)
+      mk == ms[((ci - 1) % 3) + 1]          \* one of the three deletions, in turn, for the longer shapes
+  IN [n \in 1..Len(ms) |-> HC(ShId(c, "S1:save", ms[n]), HEnv(c), <<Show("save", "m")>> \o ms[n].st)]
+     \o [n \in 1..Len(ms) |-> HC(ShId(c, "S1:autosave", ms[n]), HEnv(c), <<Show("autosave", "m")>> \o ms[n].st)]
+     \o << HC(ShId(c, "S2", mk), HEnv(c), <<Show("save", "m")>> \o ms[5].st \o <<Show("save", "m")>> \o mk.st),
+           HC(ShId(c, "S3", mk), HEnv(c), <<NextSession>> \o mk.st),
+           HC(ShId(c, "S4", mk), HEnv(c), <<Show("save", "m")>> \o mk.st \o <<NextSession>>) >>
+ShrinkCases == Flat([i \in 1..Len(ShrinkVals) |-> ShrinkOf(ShrinkVals[i], i)], 1)
+
+(* A named function where a value is written (scope "alias").  `func f(x){x+1}` is held under another name (h = f) or
+   inside a container (h = [f,2], h = {"k":f}, h = [[f]]) - h sorting before or after f - while the name f itself is, in
+   the saving session, still that function (control), bound to data, bound to another function, or not bound at all.
+   What the session holds is in `env`; `src` builds it.                                                           *)
+AliasFn      == Fn("f", "func (x){x+1}", "func (x){x+1}", <<>>)
+AliasHolders == <<"a", "g">>
+AliasWays    == << [id |-> "alias", src |-> "f",         v |-> AliasFn],
+                   [id |-> "arr",   src |-> "[f,2]",     v |-> Arr(<<AliasFn, IntN(2)>>)],
+                   [id |-> "map",   src |-> "{\"k\":f}", v |-> Map(<< <<Str("k"), AliasFn>> >>)],
+                   [id |-> "deep",  src |-> "[[f],{1:[f]}]", v |-> Arr(<<Arr(<<AliasFn>>), Map(<< <<IntN(1), Arr(<<AliasFn>>)>> >>)>>)] >>
+AliasOwn     == << [id |-> "same",  src |-> "",            b |-> << <<"f", AliasFn>> >>],
+                   [id |-> "data",  src |-> "; f=3",       b |-> << <<"f", IntN(3)>> >>],
+                   [id |-> "func",  src |-> "; f=x=>x*2",  b |-> << <<"f", Fn("", "x=>x*2", "x=>x*2", <<>>)>> >>],
+                   [id |-> "gone",  src |-> "; del(f)",    b |-> <<>>] >>
+AliasCase(h, w, o) ==
+  SC(Cat3(Cat3("alias:", h, ":"), w.id, StrCat(":", o.id)),
+     Cat3(Cat3("func f(x){x+1}; ", h, "="), w.src, StrCat(o.src, "; z=1")),
+     << <<h, w.v>>, <<"z", IntN(1)>> >> \o o.b)
+AliasCases ==
+  Flat([hi \in 1..Len(AliasHolders) |-> Flat([wi \in 1..Len(AliasWays) |->
+          [oi \in 1..Len(AliasOwn) |-> AliasCase(AliasHolders[hi], AliasWays[wi], AliasOwn[oi])]], 1)], 1)
+  \o <<
+  \* a name given where the function is written as a value: both names are bound; then the own name is rebound / deleted
+  SC("alias:defexpr:data", "g=func h(a){a+1}; h=5",
+     << <<"g", Fn("h", "func (a){a+1}", "func (a){a+1}", <<>>)>>, <<"h", IntN(5)>> >>),
+  SC("alias:defexpr:gone", "g=func h(a){a+1}; del(h)",
+     << <<"g", Fn("h", "func (a){a+1}", "func (a){a+1}", <<>>)>> >>),
+  \* a function that returns itself; its name then holds data
+  SC("alias:self:data", "func me(){self}; s=me(); me=\"d\"",
+     << <<"me", Str("d")>>, <<"s", Fn("me", "func (){self}", "func (){self}", <<>>)>> >>),
+  \* two named functions, each other's name: t holds f, f holds g
+  SC("alias:swap", "func f(){1}; func g(){2}; t=f; f=g",
+     << <<"f", Fn("g", "func (){2}", "func (){2}", <<>>)>>, <<"g", Fn("g", "func (){2}", "func (){2}", <<>>)>>,
+        <<"t", Fn("f", "func (){1}", "func (){1}", <<>>)>> >>),
+  \* the own name sorts between two holders; the own name is a container that holds the function itself
+  SC("alias:between", "func m(x){x*3}; a=m; z=[m]; m={\"k\":1}",
+     << <<"a", Fn("m", "func (x){x*3}", "func (x){x*3}", <<>>)>>, <<"m", MkMap(<< <<Str("k"), IntN(1)>> >>)>>,
+        <<"z", Arr(<<Fn("m", "func (x){x*3}", "func (x){x*3}", <<>>)>>)>> >>),
+  SC("alias:own-holds-itself", "func f(x){x+1}; f=[f]",
+     << <<"f", Arr(<<AliasFn>>)>> >>)
+  >>
+
 FuncCases == <<
   SC("fn:named-add", "func f(a,b){a+b}",
      << <<"f", Fn("f", "func (a,b){a+b}", "func (a,b){a+b}", <<>>)>> >>),
@@ -934,6 +1072,12 @@ FuncCases == <<
      << <<"f", Fn("f", "func (a,b){[a<<2,a>>1,a&b,a|b,a^b,a%3]}", "func (a,b){[a<<2,a>>1,a&b,a|b,a^b,a%3]}", <<>>)>> >>),
   SC("fn:literals-index", "func f(a){m={\"k\":a,1:[a,2]}; m.k+m[1][1]}",
      << <<"f", Fn("f", "func (a){m={\"k\":a,1:[a,2]}m.k+m[1][1]}", "func (a){m={\"k\":a,1:[a,2]}m.k+m[1][1]}", <<>>)>> >>),
+  \* map literals in a body whose keys are not one token (a sign, an array, a map, an expression over the parameter)
+  SC("fn:map-keys-not-leaf", "func f(a){m={-1:a,[1,2]:\"p\",{\"k\":a}:3,a+1:4}; r=[m[-1],m[[1,2]],m[{\"k\":a}],m[a+1],len(m)]; r}",
+     << <<"f", Fn("f", "func (a){m={-1:a,[1,2]:\"p\",{\"k\":a}:3,a+1:4}r=[m[-1],m[[1,2]],m[{\"k\":a}],m[a+1],len(m)]r}",
+                       "func (a){m={-1:a,[1,2]:\"p\",{\"k\":a}:3,a+1:4}r=[m[-1],m[[1,2]],m[{\"k\":a}],m[a+1],len(m)]r}", <<>>)>> >>),
+  SC("fn:lambda-map-keys-expr", "g=a=>{{-a:[a],[a]:-a}}",
+     << <<"g", Fn("", "a=>{{-a:[a],[a]:-a}}", "a=>{{-a:[a],[a]:-a}}", <<>>)>> >>),
   SC("fn:index-assign", "func f(a){a[0]=9; a}",
      << <<"f", Fn("f", "func (a){a[0]=9 a}", "func (a){a[0]=9 a}", <<>>)>> >>),
   SC("fn:postfix", "func f(a){a++; a}",
@@ -982,7 +1126,9 @@ McCases == <<
   DC("mc:long", << <<"a", IntN(1)>>, <<"b", LongStr(MaxLine)>>, <<"c", IntN(3)>> >>),
   PickCase(FuncCases, "fn:named-add"), PickCase(FuncCases, "fn:lambda-1"), PickCase(FuncCases, "fn:closure-1"),
   PickCase(FuncCases, "fn:lossy-right-paren"), PickCase(FuncCases, "fn:alias"), PickCase(FuncCases, "fn:func-in-array"),
-  PickCase(FuncCases, "fn:ext-value"), PickCase(FuncCases, "fn:quote-multiline"), PickCase(LimitCases, "limit:funcs") >>
+  PickCase(FuncCases, "fn:ext-value"), PickCase(FuncCases, "fn:quote-multiline"), PickCase(LimitCases, "limit:funcs"),
+  PickCase(AliasCases, "alias:g:alias:data"), PickCase(AliasCases, "alias:a:arr:gone"),
+  PickCase(ShrinkCases, "shrink:map5:S1:save:del-last"), PickCase(ShrinkCases, "shrink:str:S1:autosave:short-mid") >>
 
 ScopeCases(s) ==
   CASE s = "mc"     -> McCases
@@ -1001,7 +1147,9 @@ ScopeCases(s) ==
     [] s = "hist"   -> HistCases
     [] s = "histall" -> HistAllCases
     [] s = "histmc" -> HistMcCases
-AllScopes == <<"mc", "int", "float", "byte", "str", "scalar", "arr", "map", "pair", "name", "long", "limit", "func", "hist", "histall", "histmc">>
+    [] s = "shrink" -> ShrinkCases
+    [] s = "alias"  -> AliasCases
+AllScopes == <<"mc", "int", "float", "byte", "str", "scalar", "arr", "map", "pair", "name", "long", "limit", "func", "hist", "histall", "histmc", "shrink", "alias">>
 RECURSIVE ConcatScopes(_)
 ConcatScopes(i) ==
   IF i > Len(AllScopes) THEN <<>>
@@ -1093,6 +1241,8 @@ EmitCase ==
                         \* a history: the bindings it starts from and its steps as inputs; env is what the session holds at the end
                         env0 |-> EnvJ(meta.env0), steps |-> [i \in 1..Len(meta.steps) |-> StepJ(meta.steps[i])],
                         env |-> EnvJ(globals), n |-> Len(Written(globals, limit)), lines |-> LinesJ(f),
+                        \* what save() leaves in the file the history left behind (f itself unless SaveNoTrunc)
+                        ext |-> LinesJ(WriteOver(file, f)),
                         loadA |-> EnvJ(la), loadW |-> EnvJ(lw), resaveA |-> LinesJ(ra), resaveW |-> LinesJ(rw),
                         \* the model's own verdict for this case under Dev (compared with the real verdict, for diagnosis)
                         mv |-> [one |-> OneLineOf(Seen(globals, texts), limit, f) /\ SortedOf(f), skip |-> SkippedOf(Seen(globals, texts), limit, f),
@@ -1101,13 +1251,13 @@ EmitCase ==
 
 Step ==                   \* the session runs the next step of its history
   /\ phase = "fresh" /\ todo # <<>>
-  /\ LET r == StepApply(Head(todo), globals, texts, dirty, limit) IN globals' = r.g /\ texts' = r.T /\ dirty' = r.d
+  /\ LET r == StepApply(Head(todo), globals, texts, dirty, limit, file) IN globals' = r.g /\ texts' = r.T /\ dirty' = r.d /\ file' = r.f
   /\ todo' = Tail(todo)
-  /\ UNCHANGED <<file, saved, phase, meta, limit>>
+  /\ UNCHANGED <<saved, phase, meta, limit>>
 
 Save ==                   \* what is written is what the session holds (under StaleText: what its kept texts show)
   /\ phase \in {"fresh", "loadedW", "loadedA"} /\ todo = <<>>
-  /\ file' = SaveFile(Seen(globals, texts), limit)
+  /\ file' = WriteOver(file, SaveFile(Seen(globals, texts), limit))     \* save(), over the file the history left behind
   /\ saved' = globals
   /\ phase' = "saved"
   /\ texts' = <<>> /\ dirty' = FALSE        \* the ghosts are followed up to the final save
@@ -1128,7 +1278,7 @@ AutoLoadLineByLine ==     \* a fresh session auto-loads the file
 
 Cycle ==                  \* save, then load in a fresh session (either way), as one step (MC only: GEN emits at Save)
   /\ phase = "fresh" /\ todo = <<>> /\ ~EmitOn
-  /\ LET f == SaveFile(Seen(globals, texts), limit) IN
+  /\ LET f == WriteOver(file, SaveFile(Seen(globals, texts), limit)) IN
      /\ file' = f
      /\ saved' = globals
      /\ \E w \in BOOLEAN : /\ globals' = (IF w THEN LoadWholeOf(f) ELSE AutoLoadOf(f, limit))
